@@ -19,7 +19,9 @@ use serde::Serialize;
 use std::fmt::Debug;
 use std::sync::{Arc, Mutex};
 
-pub trait HProblem: Problem<Objective = SingleObjective> + ObjectiveFunction + Clone + Send + Sync + 'static {
+pub trait HProblem: Problem<Objective = SingleObjective> + ObjectiveFunction + mahf::problems::KnownOptimumProblem + Clone + Send + Sync + 'static {
+    /// no solution reaches the value `known_optimum` reports (a bound, not an attained optimum)
+    const OPTIMUM_UNREACHABLE: bool = false;
     fn instr(&self) -> &Arc<Instr>;
     fn with_instr(self, instr: Arc<Instr>) -> Self;
     fn pure(&self, s: &Self::Encoding) -> f64;
@@ -56,6 +58,7 @@ impl HProblem for BinP {
     }
 }
 impl HProblem for TspP {
+    const OPTIMUM_UNREACHABLE: bool = true;
     fn instr(&self) -> &Arc<Instr> {
         &self.instr
     }
@@ -424,6 +427,14 @@ where
     }
 }
 
+thread_local! {
+    /// 0 the configuration itself, 1 a clone, 2 rebuilt through into_builder(), 3 used once before (see run_opts)
+    pub static CONFIG_VARIANT: std::cell::Cell<u8> = const { std::cell::Cell::new(0) };
+    /// 1: the termination condition is `LessThanN::iterations(n) & !OptimumReached::new(1e-9)` (the usual "budget or optimum"
+    /// termination) where the optimum cannot be reached, instead of the iteration budget alone
+    pub static COND_VARIANT: std::cell::Cell<u8> = const { std::cell::Cell::new(0) };
+}
+
 /// One pool per size for the whole process (creating a pool per run costs more than the run).
 pub fn shared_pool(k: usize) -> Arc<rayon::ThreadPool> {
     static POOLS: Mutex<Vec<(usize, Arc<rayon::ThreadPool>)>> = Mutex::new(Vec::new());
@@ -518,6 +529,7 @@ pub trait AnySpec: Send + Sync {
     /// RON export of the configuration (C15)
     fn ron(&self) -> Result<String, String>;
     fn ron_of_clone(&self) -> Result<String, String>;
+    fn optimum_unreachable(&self) -> bool;
 }
 
 pub fn ron_string<P: Problem>(c: &Configuration<P>) -> Result<String, String> {
@@ -531,7 +543,9 @@ where
     Parallel<P>: Evaluate<Problem = P>,
 {
     pub fn config(&self, log: Arc<Mutex<Vec<(usize, usize)>>>) -> ExecResult<Configuration<P>> {
-        let cond: Box<dyn Condition<P>> = Box::new(LoopProbe { inner: LessThanN::iterations(self.iters), log, limit: 4 * self.iters as usize + 16 });
+        let budget_or_optimum = P::OPTIMUM_UNREACHABLE && COND_VARIANT.with(|v| v.get()) == 1;
+        let inner: Box<dyn Condition<P>> = if budget_or_optimum { LessThanN::iterations(self.iters) & !mahf::conditions::OptimumReached::new::<P>(1e-9)? } else { LessThanN::iterations(self.iters) };
+        let cond: Box<dyn Condition<P>> = Box::new(LoopProbe { inner, log, limit: 4 * self.iters as usize + 16 });
         (self.make)(cond)
     }
     pub fn run_full(&self, flags: Flags, ev: &EvKind, extra: Option<StepObserver<P>>) -> (RunOutcome, Option<State<'static, P>>, P) {
@@ -549,10 +563,29 @@ where
         let tmpl = self.name.to_string();
         let config = match catch(|| self.config(looplog.clone())) {
             Ok(Ok(c)) => {
-                if opts.cloned {
-                    c.clone()
-                } else {
-                    c
+                // which object runs: the configuration itself, a clone, one rebuilt through into_builder(), or the
+                // configuration after it has already been used for another run
+                match (opts.cloned, CONFIG_VARIANT.with(|v| v.get())) {
+                    (true, _) | (_, 1) => c.clone(),
+                    (_, 2) => c.into_builder().build(),
+                    (_, 3) => {
+                        let warm = (self.problem)();
+                        let _ = catch(|| {
+                            c.optimize_with(&warm, |st| {
+                                st.insert(mahf::Random::new(0xABCD));
+                                st.insert_evaluator(Sequential::<P>::new());
+                                if let Some(s) = &self.setup {
+                                    s(st)?;
+                                }
+                                Ok(())
+                            })
+                            .map(|_| ())
+                        });
+                        // the probe's log of the warm-up run is not part of the run under test
+                        looplog.lock().unwrap().clear();
+                        c
+                    }
+                    _ => c,
                 }
             }
             Ok(Err(e)) => {
@@ -705,6 +738,9 @@ where
         let c = self.config(Arc::new(Mutex::new(vec![]))).map_err(|e| format!("{:#}", e))?;
         ron_string(&c.clone())
     }
+    fn optimum_unreachable(&self) -> bool {
+        P::OPTIMUM_UNREACHABLE
+    }
 }
 
 // ---------------------------------------------------------------------------------------------
@@ -777,13 +813,13 @@ pub fn all_specs(iters: u32, thorough: bool) -> Vec<Box<dyn AnySpec>> {
             let rule: (Box<dyn Fn(usize, usize) -> bool + Send + Sync>, String) = (Box::new(move |_, n| n >= 1 && n <= max as usize), format!("1..={}", max));
             spec!(v, "real_iwo", format!("{} init={} max={} seeds={}..{}", k, init, max, smin, smax), real_problem(kind), iters, rule, move |c| iwo::real_iwo(iwo::RealProblemParameters { initial_population_size: init, max_population_size: max, min_number_of_seeds: smin, max_number_of_seeds: smax, initial_deviation: d0, final_deviation: d1, modulation_index: m }, c));
         }
-        for (pop, a, b, g, d) in [(3u32, 0.5, 1.0, 0.1, 0.9), (1, 0.2, 0.5, 1.0, 0.5), (2, 0.0, 1.0, 0.0, 0.0), (4, 1.0, 1.0, 1.0, 0.99)] {
+        for (pop, a, b, g, d) in [(3u32, 0.5, 1.0, 0.1, 0.9), (1, 0.2, 0.5, 1.0, 0.5), (2, 0.0, 1.0, 0.0, 0.0), (4, 1.0, 1.0, 1.0, 0.99), (3, 0.0, 0.0, 1.0, 0.5), (3, 0.0, 1.0, 1.0e12, 0.5)] {
             spec!(v, "real_fa", format!("{} pop={} alpha={} gamma={}", k, pop, a, g), real_problem(kind), iters, exact(pop as usize), move |c| fa::real_fa(fa::RealProblemParameters { pop_size: pop, alpha: a, beta: b, gamma: g, delta: d }, c));
         }
         for n in [3u32, 2, 1] {
             spec!(v, "real_bh", format!("{} n={}", k, n), real_problem(kind), iters, exact(n as usize), move |c| bh::real_bh(bh::RealProblemParameters { num_particles: n }, c));
         }
-        for (pop, mc, lr, al, be, ke, buf, mult) in [(3u32, 0.5, 0.1, 2u32, 0.5, 1.0, 0.0, 1u32), (1, 0.9, 0.5, 0, 10.0, 0.5, 5.0, 1), (2, 0.0, 0.0, 1, 0.1, 2.0, 1.0, 1), (2, 0.5, 0.1, 0, 0.0, 4.0, 2.0, 5)] {
+        for (pop, mc, lr, al, be, ke, buf, mult) in [(3u32, 0.5, 0.1, 2u32, 0.5, 1.0, 0.0, 1u32), (1, 0.9, 0.5, 0, 10.0, 0.5, 5.0, 1), (2, 0.0, 0.0, 1, 0.1, 2.0, 1.0, 1), (2, 0.5, 0.1, 0, 0.0, 4.0, 2.0, 5), (3, 0.3, 0.2, u32::MAX, 0.5, 2.0, 1.0, 3), (2, 0.0, 0.2, u32::MAX - 1, 0.5, 2.0, 1.0, 3)] {
             let rule: (Box<dyn Fn(usize, usize) -> bool + Send + Sync>, String) = (Box::new(|_, n| n >= 1), ">= 1".to_string());
             spec!(v, "real_cro", format!("{} pop={} mole_coll={} alpha={} beta={} iterations x{}", k, pop, mc, al, be, mult), real_problem(kind), iters * mult, rule, move |c| cro::real_cro(cro::RealProblemParameters { initial_population_size: pop, mole_coll: mc, kinetic_energy_lr: lr, alpha: al, beta: be, initial_kinetic_energy: ke, buffer: buf, on_wall_deviation: 0.2, decomposition_deviation: 0.3 }, c));
         }
